@@ -1,5 +1,6 @@
 pub mod common;
 pub mod sem;
+pub mod roundtrip;
 pub mod c01;
 pub mod c02;
 pub mod c03;
@@ -27,6 +28,8 @@ pub fn dispatch(cfg: &Config) -> i32 {
         "C07" => c07::run(cfg),
         "C12" => c12::run(cfg),
         "C13" => c13::run(cfg),
+        "C14" => roundtrip::run_c14(cfg),
+        "C15" => roundtrip::run_c15(cfg),
         "C17" => c17::run(cfg),
         "C19" => c19::run(cfg),
         "C08" => c08::run(cfg),
